@@ -1,4 +1,5 @@
 import Zc.Model.Survive
+import Zc.Model.Wire.BitmapIters
 namespace Zc.Driver.C15
 open Zc Zc.Wire Zc.Survive
 
@@ -74,10 +75,17 @@ def c15enc (toks : List String) : String :=
     | some p => s!"{b01 (!(DecodeSpec.namesOf p).any writeBackRaises)} {b01 (encodable p)}"
   | none => "bad-op"
 
+/-- `c15bm <data> <off> <end>` → windows entered and bitmap bytes scanned by `_read_bitmap(end)` entered at `off` -/
+def c15bm (toks : List String) : String :=
+  match (do let d ← Tok.bytes; let o ← Tok.nat; let e ← Tok.nat; Tok.done; pure (d, o, e) : Tok (Bytes × Nat × Nat)).run toks with
+  | some ((d, o, e), _) => let r := DecodeLib.bitmapWork d o e; s!"{r.1} {r.2}"
+  | none => "bad-op"
+
 def dispatch (cmd : String) (rest : List String) : Option String :=
   match cmd with
   | "c15run" => some (c15run rest)
   | "c15enc" => some (c15enc rest)
+  | "c15bm" => some (c15bm rest)
   | _ => none
 
 end Zc.Driver.C15
